@@ -148,7 +148,13 @@ impl Diff {
 pub fn diff(expected: &Abs, got: &Abs) -> Diff {
     let mut d = Diff::default();
     if expected.present != got.present {
-        d.observable.insert("alive");
+        // which way: a vertex the model keeps is gone (collected early / collaterally), or one survives
+        if expected.present.iter().any(|v| !got.present.contains(v)) {
+            d.observable.insert("alive-missing");
+        }
+        if got.present.iter().any(|v| !expected.present.contains(v)) {
+            d.observable.insert("alive-surplus");
+        }
     }
     let both: Vec<usize> =
         expected.present.iter().copied().filter(|v| got.present.contains(v)).collect();
